@@ -396,6 +396,25 @@ impl Sess {
         f
     }
 
+    /// A map streamed by the real builder into a sink that accepts `cap` bytes per write (or a
+    /// random prefix when `cap` is 0); the bytes the sink ends up with are then queried.
+    pub fn build_through_sink(&mut self, items: &[Kv], cap: usize, seed: u64) -> Option<usize> {
+        use crate::scen_sink::{build_through, Policy};
+        let m = self.model(items);
+        let policy = if cap == 0 { Policy::Random { short: 50, intr: 10 } } else { Policy::Cap(cap) };
+        match build_through(items, false, policy.clone(), seed) {
+            Ok(bytes) => {
+                let f = self.have(bytes, m, &format!("MapBuilder streaming into a sink ({:?})", policy));
+                self.open(f, "raw");
+                Some(f)
+            }
+            Err(e) => {
+                self.panic_ev("build-through-sink", &e);
+                None
+            }
+        }
+    }
+
     pub fn items_of(&self, f: usize) -> &Vec<Kv> {
         &self.models[self.fsts[f - 1].1 - 1]
     }
@@ -569,6 +588,17 @@ impl Sess {
                         Ok(Some(x)) => out.push(x),
                         Ok(None) => {
                             out.push((vec![], 0, Some(usize::MAX)));
+                            // a finished stream stays finished
+                            for _ in 0..2 {
+                                match guard(|| st.next().map($conv)) {
+                                    Ok(Some(x)) => out.push(x),
+                                    Ok(None) => out.push((vec![], 0, Some(usize::MAX))),
+                                    Err(p) => {
+                                        panicked = Some(p);
+                                        break;
+                                    }
+                                }
+                            }
                             break;
                         }
                         Err(p) => {
